@@ -138,20 +138,17 @@ func ifaceKey(c *ssa.CallCommon) string {
 	return qualName(t) + "." + c.Method.Name()
 }
 
-// havocCallWrites forgets what a library callee may write. For a heap key the callee writes only in memory it
-// allocates itself (syntactic frame analysis, freshonly.go), cells that existed before the call keep their values.
+// havocCallWrites forgets what a library callee may write. Per heap key, the syntactic frame analysis (freshonly.go)
+// says whether the callee can write cells that existed before the call and, if so, rooted at which arguments; every other
+// pre-existing cell keeps its value.
 func (e *Enc) havocCallWrites(h *Heap, writes map[string]bool, callee *ssa.Function, args []Val) {
 	if callee == nil || writes["*"] {
 		e.havocSet(h, writes)
 		return
 	}
-	existing, isLib := e.w.WritesExisting[callee]
+	we, isLib := e.w.WE[callee]
 	if !isLib {
 		e.havocSet(h, writes)
-		return
-	}
-	if existing["*"] {
-		e.havocSet(h, map[string]bool{"*": true})
 		return
 	}
 	apre := e.allocCounter(h)
@@ -161,7 +158,30 @@ func (e *Enc) havocCallWrites(h *Heap, writes map[string]bool, callee *ssa.Funct
 	}
 	sort.Strings(keys)
 	for _, k := range keys {
-		if existing[k] || strings.HasPrefix(k, "$") || k == "map" {
+		wc := we[k]
+		if strings.HasPrefix(k, "$") || k == "map" || (wc != nil && wc.other) {
+			e.havocKey(h, k)
+			continue
+		}
+		var except []string
+		bad := false
+		if wc != nil {
+			for i := range wc.params {
+				if i >= len(args) {
+					bad = true
+					break
+				}
+				switch args[i].S {
+				case "Slice":
+					except = append(except, e.rootOf(app("sarr", args[i].T)))
+				case "Ref":
+					except = append(except, e.rootOf(args[i].T))
+				default:
+					bad = true
+				}
+			}
+		}
+		if bad {
 			e.havocKey(h, k)
 			continue
 		}
@@ -170,7 +190,8 @@ func (e *Enc) havocCallWrites(h *Heap, writes map[string]bool, callee *ssa.Funct
 				e.heapGet(h, k, srt)
 			}
 		}
-		e.havocKeyFramed(h, k, apre, nil)
+		sort.Strings(except)
+		e.havocKeyFramed(h, k, apre, except)
 	}
 }
 
@@ -460,12 +481,12 @@ func (e *Enc) appendCall(ins ssa.Instruction, c *ssa.CallCommon, res *ssa.Call, 
 	pre := h.clone()
 	o := e.newObj(h)
 	ncap := e.fresh("cap", "Int")
-	e.assert(and(app(">=", ncap, n), app("<=", ncap, "281474976710656")))
+	e.assert(and(app(">=", ncap, n), app("<=", ncap, "1099511627776")))
 	r := e.fresh("app", "Slice")
 	e.assert(app("=", r, app("ite", inplace,
 		app("mkslice", app("sarr", s.T), app("soff", s.T), n, app("scap", s.T)),
 		app("mkslice", o, "0", n, ncap))))
-	e.assert(app("<=", n, "281474976710656")) // assumed: no slice grows past 2^48 elements
+	e.assert(app("<=", n, "1099511627776")) // assumed: no slice grows past 2^40 elements
 	if res != nil {
 		e.define(res, r)
 	}
